@@ -38,6 +38,16 @@ func Verif_H11Progress() {
 	for step := 0; step < n; step++ {
 		apiStep(s, c, keys, m, ops[vrt.Choose("op", len(ops))], "history")
 	}
+	mp0 := s.index.Primary.(*mhprimary.MultihashPrimary)
+	if vrt.Param("earlygc", 1) != 0 && vrt.Choose("early-gc", 2) == 1 {
+		// a GC cycle while data is still live: files get visited before they die
+		_, err = mp0.GC(context.Background(), 101)
+		vrt.Assert(err == nil, "primary-gc-no-error")
+		_, _, err = s.index.VerifGC(context.Background(), true)
+		vrt.Assert(err == nil, "index-gc-no-error")
+		checkAll(s, keys, m, "after-early-gc")
+		vrt.Cover("h11-early-gc")
+	}
 	for i := range keys {
 		if m.present[i] {
 			ok, err := s.Remove(keys[i])
